@@ -1016,7 +1016,7 @@ fn main() {
 
     // ---- concurrency clause
     let orders = serial_orders();
-    let tvals = [0.0, 33.0 / SCALE, 1.0, 1.0 + 63.0 / SCALE, 1088.0 / SCALE, alpha[alpha.len() - 1]];
+    let tvals = [0.0, 1.0, 1.0 + 63.0 / SCALE, 1088.0 / SCALE, alpha[alpha.len() - 1]];
     let tletters: Vec<(f64, u64)> = tvals.iter().flat_map(|v| [1u64, 1 << 32].into_iter().map(move |c| (*v, c))).collect();
     let nl = tletters.len() as u64;
     let t3 = std::time::Instant::now();
